@@ -709,6 +709,34 @@ C12_VARIANTS = ['none', 'good', 'bad_tag', 'ctx99', 'missing_target', 'dup_param
                 'bcb_over_bib_good', 'bcb_over_bib_bad_tag', 'bcb_over_bib_other_key', 'bcb_over_bib_bad_ct']
 
 
+def fragment_octets(octets, cuts):
+    ''' Fragments of a bundle as a forwarding node makes them (independent writer): the first carries every
+    extension block, later ones only those flagged "replicate"; cuts = payload offsets where a new fragment starts. '''
+    bun = bp7.read_bundle(octets)
+    pay = [b for b in bun['blocks'] if b['type'] == 1][0]
+    data = pay['data']
+    bounds = [0] + list(cuts) + [len(data)]
+    out = []
+    for (lo, hi) in zip(bounds[:-1], bounds[1:]):
+        prim = dict(bun['primary'])
+        prim['flags'] = prim['flags'] | 0x1
+        prim['frag_off'], prim['total'] = lo, len(data)
+        blocks = [dict(b) for b in bun['blocks'] if b['type'] != 1 and (lo == 0 or b['flags'] & 0x1)]
+        blocks.append(dict(pay, data=data[lo:hi]))
+        out.append(bp7.write_bundle(prim, blocks))
+    return out
+
+
+def receive_fragments(frags, order, keymode, accept, label, nsec, plain):
+    world = BpWorld(node_id='dtn://node/', rx_routes=[(PROBE, 'deliver')], tx_routes=[('dtn://rpt/', 'dtn://rpt/', None)],
+                    accept=accept, setup=dest_setup(keymode))
+    for i in order:
+        # what the generator knows about the security of the bundle holds for every fragment of it
+        world.recv(frags[i], sec=label, plain='', nsec=nsec if i == 0 else 0)
+        world.run_idle()
+    return world.finish({})
+
+
 def c12_executions(tier, seed):
     rnd = random.Random(seed * 41 + 12)
     traces, metas = [], []
@@ -727,6 +755,23 @@ def c12_executions(tier, seed):
                     trace, _res = receive(octets, keymode, accept, sec=label, plain=plain, nsec=nsec)
                     traces.append(trace)
                     metas.append({'variant': variant, 'key': keymode, 'accept': accept, 'label': label})
+    # the same bundles arriving as fragments (the integrity block travels in the first fragment only), in order and
+    # with a later fragment first: the bundle re-assembled here is verified like any other before it is delivered
+    for rep in range(reps):
+        for variant in ('good', 'bad_tag', 'ctx99', 'two_good', 'second_bad', 'none'):
+            for keymode in ('right', 'wrong'):
+                for accept in (False, True):
+                    k += 1
+                    octets, label, nsec, pay = c12_bundle(variant, 4 * k + 3)      # (a 40-octet payload)
+                    if keymode != 'right' and label == 'good':
+                        label = 'bad'
+                    ncut = 1 + k % 2
+                    cuts = sorted(rnd.sample(range(1, len(pay)), ncut))
+                    frags = fragment_octets(octets, cuts)
+                    for order in (list(range(len(frags))), list(reversed(range(len(frags))))):
+                        traces.append(receive_fragments(frags, order, keymode, accept, label, nsec, dig(pay)))
+                        metas.append({'variant': variant, 'key': keymode, 'accept': accept, 'label': label,
+                                      'fragments': len(frags), 'order': order})
     # cases of the coverage sweep whose verdict the independent implementation knows
     events, ctraces, cmetas = cover_cases(tier, seed, ('mac0', 'enc0'))
     for (ev, tr, me) in zip(events[:-1], ctraces, cmetas):
